@@ -38,4 +38,6 @@ Extraction "model.ml"
   object_delete_w object_pick_w strip_nulls_w delete_by_keypath_w contains_w array_distinct_w array_intersection_w
   array_except_w array_overlap_w key_safe_doc
   num_cmp_rs_res num_eqb_rs_res num_cmp_rs num_eqb_rs
+  concat_st delete_by_name_st delete_by_index_st array_insert_st object_insert_st object_delete_st object_pick_st
+  strip_nulls_st delete_by_keypath_st array_distinct_st array_intersection_st array_except_st
   run_b.
